@@ -109,6 +109,17 @@ def one_case(d, rng, strat):
         return [], fl, flat(cls(*args)), dict(args=args)
     if kind == "static":
         return [], [], flat(getattr(CLS[py["cls"]], py["name"])()), {}
+    if kind == "iadd":
+        obj = gen_pose(rng, py["cls"], strat)
+        a = py["args"][0]
+        o = gen_pose(rng, a[1], strat) if a[0] == "pose" else gen_delta(rng, a[1], strat)
+        fl = flat(obj) + flat(o)
+        before = flat(obj)
+        p = obj
+        pid = id(p)
+        p += o
+        assert id(p) != pid and flat(obj) == before, "+= mutated its operand"
+        return [], fl, flat(p), dict(self=before)
     if kind in ("method", "property", "mutator"):
         obj = gen_pose(rng, py["cls"], strat)
         fl = flat(obj)
